@@ -1131,6 +1131,22 @@ func operandsCompiledInSourceOrder(c *core.Ctx) {
 							// the second evaluation happens only for a name or a literal
 							c.Pass(core.SSAName(fn)+"|"+name+"-compiled-once", p.Pos(ss[j].in.Pos()), fn.Name()+" compiles "+name+"() a second time only on the path on which a predicate has shown it to be a leaf of the syntax tree (a name or a literal), whose evaluation has no effect")
 							twice[name] = true
+							// ... and what is evaluated between the two evaluations is a leaf as well: a
+							// call there can rebind the name, and the second evaluation then finds another value
+							for _, other := range accNames {
+								if other == name {
+									continue
+								}
+								for _, k := range sites[other] {
+									if k.in == ss[i].in || k.in == ss[j].in || !instrReaches(ss[i].in, k.in) || !instrReaches(k.in, ss[j].in) {
+										continue
+									}
+									okBetween := compiledAgainOnlyWhenALeaf(p, fn, other, k.recv, ss[j].in)
+									n++
+									c.Check(okBetween, core.SSAName(fn)+"|"+other+"-between-two-evaluations-of-"+name, p.Pos(k.in.Pos()),
+										fn.Name()+" compiles "+other+"() between the two evaluations of "+name+"()"+ife(okBetween, ", and only when a predicate has shown it to be a name or a literal too", " whatever it is: an expression that runs there can change what the second evaluation of "+name+"() yields (l[i] += bump(), where bump() sets i, stores into another slot than it read)"))
+								}
+							}
 							continue
 						}
 						twice[name] = true
